@@ -41,12 +41,15 @@ pub broadcast proof fn ax_qmark_anchor(e: ErrorCode, r: Error) requires #[trigge
 pub open spec fn err<T>(c: ErrorCode) -> Result<T> { Err(Error { code: c }) }
 
 /// Anchor `Account<'info, T>`: only the deref to the deserialized data and the key are modelled.
-pub struct Account<T> { pub data: T, pub k: Pubkey }
-impl<T> Account<T> {
+pub struct Account<'info, T> { pub data: T, pub k: Pubkey, pub p: core::marker::PhantomData<&'info ()> }
+impl<'info, T> Account<'info, T> {
     pub fn key(&self) -> (r: Pubkey) ensures r == self.k { self.k }
 }
-impl<T> std::ops::Deref for Account<T> {
+impl<'info, T> std::ops::Deref for Account<'info, T> {
     type Target = T;
     fn deref(&self) -> (r: &T) ensures *r == self.data { &self.data }
+}
+impl<'info, T> std::ops::DerefMut for Account<'info, T> {
+    fn deref_mut(&mut self) -> (r: &mut T) ensures *r == old(self).data, *final(r) == final(self).data, final(self).k == old(self).k { &mut self.data }
 }
 }
